@@ -207,7 +207,7 @@ def run_job(spec):
             for dtn, cnd in getattr(ctx, 'wrap_obligations', []):
                 wraps.setdefault(dtn, []).append(cnd)
             extra_obs = [('no-silent-integer-wrap: every value stored into a %s array fits it' % dtn, core.sand(*cs))
-                         for dtn, cs in sorted(wraps.items())] if po.exc is None else []
+                         for dtn, cs in sorted(wraps.items())] if (po.exc is None or po.exc not in ('OverflowError',)) else []
             for label, prop in list(po.obligations) + extra_obs:
                 res['obligations'] += 1
                 status, model = ctx.prove(prop)
